@@ -3,7 +3,9 @@ package keeper
 import (
 	"context"
 
+	errorsmod "cosmossdk.io/errors"
 	sdk "github.com/cosmos/cosmos-sdk/types"
+	sdkerrors "github.com/cosmos/cosmos-sdk/types/errors"
 
 	"github.com/sunriselayer/sunrise/x/selfdelegation/types"
 )
@@ -12,6 +14,10 @@ func (k msgServer) WithdrawSelfDelegationUnbonded(ctx context.Context, msg *type
 	delegator, err := k.addressCodec.StringToBytes(msg.Sender)
 	if err != nil {
 		return nil, err
+	}
+
+	if msg.Amount.IsNil() || !msg.Amount.IsPositive() {
+		return nil, errorsmod.Wrap(sdkerrors.ErrInvalidRequest, "amount must be positive")
 	}
 
 	proxyAddrBytes, err := k.SelfDelegationProxies.Get(ctx, delegator)
